@@ -179,13 +179,13 @@ def run_job(job, tier, seed):
         cases = common.layout_cases(tier, seed, 'C04', rnd_quick={4: 8, 5: 4, 6: 3, 7: 1, 8: 1}, rnd_thorough={6: 20, 7: 8, 8: 3, 9: 1})
         layouts = common.build_layouts(res, cases)
         for tag, L in layouts:
-            check_laws(res, L, rng, tag, reps=3 if L.gaDims <= 64 else 1, default_order=common.is_shortlex(L))
+            common.gcall(res, check_laws, L, rng, tag, reps=3 if L.gaDims <= 64 else 1, default_order=common.is_shortlex(L))
             if L.gaDims <= 64:
-                check_complex(res, L, rng, tag, 2)
-        correspondence(res, [(t, L) for t, L in layouts if L.gaDims <= 128], rng, 2 if tier == 'quick' else 6, 'nojit')
+                common.gcall(res, check_complex, L, rng, tag, 2)
+        common.gcall(res, correspondence, [(t, L) for t, L in layouts if L.gaDims <= 128], rng, 2 if tier == 'quick' else 6, 'nojit')
         for name in ('g3c', 'pga', 'sta:D'):
             L = real.predefined(name)
-            check_laws(res, L, rng, name, reps=3, default_order=True)
+            common.gcall(res, check_laws, L, rng, name, reps=3, default_order=True)
     elif job == 'laws_jit':
         cases = [dict(sig=gen.random_signature(rng, n)) for n in (1, 2, 3, 4, 5)]
         n = int(rng.integers(2, 4))
@@ -195,9 +195,9 @@ def run_job(job, tier, seed):
             cases += [dict(sig=gen.random_signature(rng, n)) for n in (6, 7)]
         layouts = common.build_layouts(res, cases, prefix='J')
         for tag, L in layouts:
-            check_laws(res, L, rng, tag, reps=4, default_order=common.is_shortlex(L))
-            check_complex(res, L, rng, tag, 2)
-        correspondence(res, layouts, rng, 6 if tier == 'quick' else 20, 'jit', dtypes=('int', 'float'))
+            common.gcall(res, check_laws, L, rng, tag, reps=4, default_order=common.is_shortlex(L))
+            common.gcall(res, check_complex, L, rng, tag, 2)
+        common.gcall(res, correspondence, layouts, rng, 6 if tier == 'quick' else 20, 'jit', dtypes=('int', 'float'))
     else:
         raise ValueError(job)
     return res
